@@ -26,7 +26,7 @@ PROP = {
     "keys": ["callback-twice", "callback-after-close", "callback-of-starting-op-outside-its-call", "deferred-callback-outside-poll",
              "cancelled-result-without-cancel", "cancel-completed-with-success", "cancel-left-operation-in-flight",
              "operation-never-completed-although-ready", "callback-of-unknown-op", "handler-nesting-broken", "return-without-call",
-             "op-id-reused", "panic", "ledger-callback-not-owed", "ledger-structure"],
+             "op-id-reused", "panic", "ledger-callback-not-owed", "ledger-structure", "datagram-boundary"],
     "secondary_keys": ["operation-never-completed-although-ready", "cancel-left-operation-in-flight", "callback-twice", "callback-after-close",
                        "ledger-callback-not-owed"],
     "rule": LOOP_RULE,
